@@ -820,6 +820,11 @@ func (tm *Manager) Run(ec chan error) {
 	verifEmit("run-locked", tm, nil)
 	defer verifEmit("run-return", tm, nil)
 
+	// Re-arm before anyone can learn that this run has started (or failed):
+	// the next Restart closes this channel.
+	tm.restart = make(chan struct{})
+	verifEmit("restart-chan-remade", tm, nil)
+
 	var err error
 	tm.tasks, err = loadTasks(tm.ctx, tm.pgp, tm.conf)
 	if err != nil {
@@ -832,8 +837,6 @@ func (tm *Manager) Run(ec chan error) {
 	close(ec)
 	verifPoint("after-startup-signal", nil)
 
-	tm.restart = make(chan struct{})
-	verifEmit("restart-chan-remade", tm, nil)
 	var wg sync.WaitGroup
 	for i := range tm.tasks {
 		i := i
